@@ -444,6 +444,11 @@ func (w *vcWorld) build(name string) bpv7.Bundle {
 	ts := w.base.Add(time.Duration(idx+1) * time.Millisecond)
 	if a.Life == "short" {
 		ts = time.Now() // built when first handed to the node: the short lifetime counts from then
+		if a.Age > 0 && !a.Clockless {
+			// a creation time AND an age block: most of the lifetime went by on the way (the age block only counts the time spent at
+			// nodes), so that the creation time ends the lifetime long before the age does
+			ts = ts.Add(-w.shortL * 6 / 10)
+		}
 		w.shortExp[name] = ts.Add(w.shortL)
 	}
 	if a.Tsg > 0 {
